@@ -122,6 +122,7 @@ pub fn harnesses(prop: &str, tier: &str) -> Vec<Harness> {
         "C10" => c10(quick),
         "C11" => c11(quick),
         "C12" => c12(quick),
+        "C18" => c18(quick),
         _ => Vec::new(),
     }
 }
@@ -412,6 +413,22 @@ fn c12(quick: bool) -> Vec<Harness> {
     }]
 }
 
+fn c18(quick: bool) -> Vec<Harness> {
+    use crate::c18::{C18World, cases};
+    let cs = cases(quick);
+    let n = cs.len();
+    let cs = std::rc::Rc::new(cs);
+    let (c1, c2) = (cs.clone(), cs.clone());
+    let b = Bounds { depth: 1, dev: 0, d_all: 1, merge: false, shard: (0, 1), cap_s: 0 };
+    vec![Harness {
+        name: "config-x-kernel-answer".to_string(),
+        describe: json!({"engine": "seqx", "world": "C18World", "cases": n, "product": "queue sizes x completion size x clamp x kernel thread(affinity, idle) x single issuer x defer taskrun x disabled x attach x direct descriptors, crossed with kernel answers (ok, other granted sizes, 4 setup errors, 4 missing feature bits, unmappable fd, k-th mmap fails, k-th madvise fails, file table registration fails) and initial counter values", "sample_case": format!("{:?}", cs[cs.len() / 2])}),
+        bounds: b,
+        run: Box::new(move |b| seqx::explore(&|| C18World::new(c1.clone()), "C18", b)),
+        replay: Box::new(move |choices| seqx::exec(&|| C18World::new(c2.clone()), "C18", choices)),
+    }]
+}
+
 fn c11(quick: bool) -> Vec<Harness> {
     use crate::thworld::{C11Cfg, RingMode, c11};
     let mut v = Vec::new();
@@ -550,7 +567,7 @@ fn c01(quick: bool) -> Vec<Harness> {
     v
 }
 
-pub const ALL: &[&str] = &["C01", "C02", "C03", "C04", "C05", "C06", "C07", "C08", "C09", "C10", "C11", "C12"];
+pub const ALL: &[&str] = &["C01", "C02", "C03", "C04", "C05", "C06", "C07", "C08", "C09", "C10", "C11", "C12", "C18"];
 
 pub fn assumptions(prop: &str) -> Vec<String> {
     let mut v = vec![
